@@ -269,7 +269,8 @@ PROPS["C16"] = {
               "on arbitrary byte strings of total length {0,1,2,6,10,17,18,20}; rotation messages: round trip for key lengths {0,1,31,32}, "
               "decoder totality on arbitrary strings of length {0,8,9,10,12,24} (length fields up to 255 unwound)",
     "outside": "the node-information codec (NodeInfo: encode_peer_list_part exhausts 16 GB even on concrete addresses) and the "
-               "handshake codec (InitMsg does not complete under symbolic execution); unknown-part skipping; 64 KiB stale tails",
+               "handshake codec as a whole (InitMsg::read_from does not complete under symbolic execution; its cipher-list arm is extracted and "
+               "decided); unknown-part skipping; 64 KiB stale tails",
     "assumptions": STD_ASSUME,
     "obligations": [K("c16_range_roundtrip_len%02d" % n, "Range encode->decode identity, %d-byte address" % n,
                       ("quick", "thorough") if n in (0, 4, 16) else T) for n in _rr] +
@@ -286,20 +287,41 @@ PROPS["C16"] = {
 
 # ------------------------------------------------------------------------------------------------------------ C06
 _c06_quick = {(4, 6), (10, 15), (0, 3), (1, 2), (7, 9), (12, 5), (15, 15), (3, 0), (1, 1), (5, 1), (2, 7)}
+_WIRE = [("n0_t", "no cipher, unencrypted allowed"), ("n1_f", "1 cipher"), ("n2_f", "2 ciphers in any order, repetitions included"),
+         ("n2_t", "2 ciphers + unencrypted"), ("n3_f", "3 ciphers in any order"), ("n3_t", "3 ciphers + unencrypted")]
+_c06_wire = [K("c06_cipher_list_on_the_wire_" + k, "the offered cipher list reaches the peer as offered (writer arm of write_to then reader arm of read_from, "
+               "both extracted): same ciphers, same order, bit-identical speeds, same flag - " + w, role="c06_wire") for k, w in _WIRE]
 PROPS["C06"] = {
     "files": ["src/crypto/init.rs", "src/crypto/common.rs"],
-    "functions": ["InitState::select_algorithm", "InitState::algorithm_rank"],
-    "bounds": "each side's list = one of the 16 ordered subsets of {aes128, aes256, chacha20} (all 256 pairs in the thorough tier, "
+    "functions": ["InitState::select_algorithm", "InitState::algorithm_rank",
+                  "InitMsg::write_to (cipher-list arm, extracted)", "InitMsg::read_from (cipher-list arm, extracted)"],
+    "bounds": "cipher list on the wire: every list of 0..=3 ciphers in any order (repetitions included), every f32 bit pattern as speed, "
+              "flag on/off, through the extracted writer and reader arms; selection: each side's list = one of the 16 ordered subsets of {aes128, aes256, chacha20} (all 256 pairs in the thorough tier, "
               "11 in the quick tier, single-cipher shapes included), all six speeds symbolic over every finite non-negative f32 (ties, zero, huge values included), "
               "both allow-unencrypted flags symbolic; three selections per instance (A about B, B about A, A with reversed list about B)",
     "outside": "NaN speeds (excluded by the property); lists with a cipher named twice; Crypto::parse_algorithms (string handling); "
-               "'altering the lists in transit makes the handshake fail' (needs the handshake parser, out of reach)",
-    "assumptions": RING_ASSUME[3:] + ["ring::aead::Algorithm equality is identity of the three static algorithm objects (model: id compare)"],
+               "'altering the lists in transit makes the handshake fail' (needs the handshake parser, out of reach); of the parser only "
+               "the cipher-list arm is decided (extracted; the rest of InitMsg::read_from does not complete under symbolic execution)",
+    "assumptions": RING_ASSUME[3:] + ["ring::aead::Algorithm equality is identity of the three static algorithm objects (model: id compare)",
+                                      "the two arms are extracted textually from src/crypto/init.rs on every run and compiled as associated functions of "
+                                      "InitMsg with the bindings the surrounding function provides (w / r = Cursor over the buffer, field_len, algorithms); "
+                                      "an anchor that no longer matches makes the check exit 2"],
     "obligations": [K("c06_sel_a%02d_b%02d" % (a, b), "selection symmetric / optimal / order independent for list shapes %d x %d" % (a, b),
                       ("quick", "thorough") if (a, b) in _c06_quick else T, role="c06_select_symmetric",
                       timeout={"quick": 900, "thorough": 1800}, mem_gb=16)
-                    for a in range(16) for b in range(16)],
+                    for a in range(16) for b in range(16)] + _c06_wire,
 }
+
+# the cipher-list part of the handshake codec is the one piece of InitMsg that can be decided (extracted arms)
+PROPS["C16"]["obligations"] += [o for o in _c06_wire if o["name"].endswith(("n2_f", "n3_t"))] + [
+    K("c16_cipher_list_decode_total_15_of_15", "cipher-list reader arm of InitMsg::read_from on 15 arbitrary bytes: a list of <= 3 ciphers, no panic", role="c16_cipher_list_total"),
+    K("c16_cipher_list_decode_total_12_of_14", "12 arbitrary bytes, length field 14 (two entries)", role="c16_cipher_list_total"),
+    K("c16_cipher_list_decode_total_7_of_10", "truncated: 7 bytes present, length field 10: the parse error, no panic", role="c16_cipher_list_total"),
+]
+PROPS["C16"]["files"] += ["src/crypto/init.rs"]
+PROPS["C16"]["functions"] += ["InitMsg::write_to (cipher-list arm, extracted)", "InitMsg::read_from (cipher-list arm, extracted)"]
+PROPS["C16"]["bounds"] += "; handshake messages: only the cipher-list part (0..=3 entries, any order, any f32 bits; arbitrary bytes for totality)"
+PROPS["C16"]["assumptions"] = PROPS["C16"]["assumptions"] + [PROPS["C06"]["assumptions"][-1]]
 
 EXTRACT_ASSUME = STD_ASSUME + [
     "statement slices are extracted textually from /repo on every run and compiled inside wrapper items that declare the "
@@ -459,10 +481,11 @@ PROPS["C05"] = {
     "functions": ["InitState::handle_init (stage logic, Ping arm)", "InitState::every_second", "InitState::repeat_last_message"],
     "bounds": "ONE real step of one handshake object from a symbolic state: (a) an end awaiting the pong receives the other "
               "end's verified ping (arbitrary salted hashes); (b) one second passes in any stage with any retry counter / "
-              "linger time / last datagram",
+              "linger time / last datagram; (c) a late or duplicate verified ping of a foreign node (arbitrary salted hash) reaches "
+              "an object that awaits the peng, lingers after success, or is closing (stored datagram: 3 symbolic bytes)",
     "outside": "the property's quantifier: all schedules of two objects under loss, duplication, reordering, dual open to depth "
                "10, and the liveness clause - a loss-free three-message handshake of two real objects does not complete under the "
-               "caps. The two obligations decide the role-negotiation rule and the retransmission/give-up/linger timer; they are "
+               "caps. The obligations decide the role-negotiation rule, the retransmission/give-up/linger timer and the answer to a late ping; they are "
                "not composed over schedules; agreement of keys/ciphers after completion is not decided here (C06 decides the "
                "selection function, C04 the halves)",
     "assumptions": HS_ASSUME,
@@ -474,6 +497,11 @@ PROPS["C05"] = {
         K("c05_every_second_ping_nolast", "nothing sent yet: counts, sends nothing"),
         K("c05_every_second_waiting", "initiator lingers: countdown, then CLOSING; no retransmission"),
         K("c05_every_second_closing", "a closing object is inert"),
+        K("c05_late_ping_awaiting_peng_repeats_pong", "a late / duplicate verified ping of a foreign node while awaiting the peng is answered with the stored pong, byte-identical; nothing else changes",
+          role="c05_late_ping", timeout={"quick": 600}),
+        K("c05_late_ping_lingering_repeats_peng", "same while the initiator lingers after success: the stored peng is repeated (the peer's copy may have been lost)",
+          role="c05_late_ping", timeout={"quick": 600}),
+        K("c05_late_ping_closing_is_silent", "a closing object stays silent and unchanged", role="c05_late_ping", timeout={"quick": 600}),
         K("c04_half_decision_antisymmetric", "the comparison both ends evaluate is antisymmetric: exactly one yields"),
     ],
 }
